@@ -63,9 +63,40 @@ def box_line_start(data):
     return body.rfind(b"\n") + 1
 
 
-def judge(kind, res, must_reject, complete_records, where, hist):
+# The one listed finding of this property (known_findings.json): the format itself cannot tell a triclinic box line
+# (nine numbers) from an atom record with velocities whose residue and atom names are numbers ("    01    " - the number
+# and a left-aligned numeric name run together - then six or more numbers: nine tokens).  A partial file whose first
+# line after the declared atoms is such a record is accepted.  The class is recognised from the file's bytes, counted,
+# and reported once per run as KNOWN-FINDING; every other accepted partial file is a violation as before.
+KNOWN_BOX_LOOKALIKE = "accepted-incomplete:record-reads-as-nine-number-box"
+
+
+def _record_reads_as_box(content, natoms_read):
+    lines = content.replace(b"\r\n", b"\n").split(b"\n")
+    if len(lines) < 3 + natoms_read:
+        return False
+    toks = lines[2 + natoms_read].split()
+    if len(toks) != 9 or len(lines[2 + natoms_read]) != len(lines[2]):
+        return False
+    try:
+        [float(t) for t in toks]
+    except ValueError:
+        return False
+    return True
+
+
+def _bytes(path):
+    with open(path, "rb") as f:
+        return f.read()
+
+
+def judge(kind, res, must_reject, complete_records, where, hist, content=None):
     if kind == "raise":
         hist[res] = hist.get(res, 0) + 1
+        return
+    if must_reject and content is not None and _record_reads_as_box(content, len(res)):
+        hist[KNOWN_BOX_LOOKALIKE] = hist.get(KNOWN_BOX_LOOKALIKE, 0) + 1
+        hist.setdefault("_known_where", where)
         return
     if must_reject:
         raise PropertyViolation("accepted-incomplete", "%s is accepted and returns %d atom records"
@@ -91,7 +122,7 @@ def enumerate_prefixes(data, complete_records, lo=0, hi=None, hist=None):
         os.truncate(path, L)
         kind, res = try_read(path)
         judge(kind, res, L <= bstart, complete_records, "prefix of %d/%d bytes (box line starts at %d)"
-              % (L, len(data), bstart), hist)
+              % (L, len(data), bstart), hist, content=data[:L])
         n += 1
         if data.find(b"\n") < L <= bstart:
             nt += 1
@@ -199,7 +230,7 @@ def check_generated(case):
         with open(spath, "wb") as f:
             f.write(content)
         kind, res = try_read(spath)
-        judge(kind, res, not box_done, complete, "crash " + desc, hist)
+        judge(kind, res, not box_done, complete, "crash " + desc, hist, content=content)
         n += 1
         if len(content) > header_end and not box_done:
             nt += 1
@@ -248,7 +279,7 @@ def check_generated(case):
         gc.collect()
         kind, res = try_read(apath)
         judge(kind, res, True, complete, "abandoned writer after %d of %d records (%s count, no close)"
-              % (k, nrec, "declared" if case["declare"] else "undeclared"), hist)
+              % (k, nrec, "declared" if case["declare"] else "undeclared"), hist, content=_bytes(apath))
         n += 1
         nt += 1
     # a value too wide for its column in the last record (a molecule that drifted out of the representable range) makes
@@ -271,7 +302,7 @@ def check_generated(case):
         gc.collect()
         kind, res = try_read(opath)
         judge(kind, res, True, complete, "abandoned writer after %d of %d records, the last one with an over-wide value"
-              % (nrec, nrec), hist)
+              % (nrec, nrec), hist, content=_bytes(opath))
         n += 1
         nt += 1
     # part-way through closing: with a declared count, close() after fewer records raises -
@@ -300,9 +331,14 @@ def check_generated(case):
             except Exception:     # noqa: BLE001
                 pass
             kind, res = try_read(fpath)
-            judge(kind, res, True, complete, "failed-close after %d of %d declared records" % (k, len(case["records"])), hist)
+            judge(kind, res, True, complete, "failed-close after %d of %d declared records" % (k, len(case["records"])), hist,
+                  content=_bytes(fpath))
             n += 1
             nt += 1
+    if hist.get(KNOWN_BOX_LOOKALIKE):
+        raise PropertyViolation("accepted-incomplete", "%s is accepted: the atom record that follows the declared atoms "
+                                "consists of nine numbers and is read as a triclinic box line (%d such states in this "
+                                "case)" % (hist["_known_where"], hist[KNOWN_BOX_LOOKALIKE]), cls=KNOWN_BOX_LOOKALIKE)
     return {"units": (n + n2, nt + nt2),
             "classes": ["declared" if case["declare"] else "backfilled", "vel" if case["vel"] else "novel",
                         "fmt:%s" % ("default" if case["format"] is None else "custom"),
@@ -320,6 +356,10 @@ def generated_case(draw, tier):
     case["records"] = case["records"][:limit]
     case["crlf"] = draw(st.integers(0, 2)) == 0
     case["rerun"] = draw(st.booleans())
+    if draw(st.integers(0, 3)) == 0:
+        # the last record's names look like numbers (a line that reads as numbers only must still not pass for a box)
+        case["records"][-1][1] = draw(st.sampled_from(c13.NUMBERLIKE[:8]))
+        case["records"][-1][2] = draw(st.sampled_from(c13.NUMBERLIKE[:8]))
     # numbers beyond five digits are C13's subject; keep files plain here
     return case
 
